@@ -24,6 +24,7 @@ namespace PM.C16
 /-- exception classes (the harness maps Python exceptions to these names) -/
 inductive Err where
   | assertion | value | runtime | type | index | notImplemented | unavailable
+  | invalidMapping          -- `InvalidMappingException` (`ModeConnector`)
   | transport               -- `rpc_handler.create_job` raised (the request was not delivered / was refused)
   | precondition            -- outside the modelled domain: the driver refuses, it never defaults
 deriving DecidableEq, Repr
@@ -36,6 +37,7 @@ def Err.name : Err → String
   | .index => "IndexError"
   | .notImplemented => "NotImplementedError"
   | .unavailable => "UnavailableModeException"
+  | .invalidMapping => "InvalidMappingException"
   | .transport => "TransportError"
   | .precondition => "precondition"
 
@@ -46,6 +48,7 @@ inductive PV where
   | none
   | int (i : Int)
   | str (s : String)
+  | bool (b : Bool)         -- `True` / `False` (`thresholded_output`)
 deriving DecidableEq, Repr, Inhabited
 
 /-! ### Python dictionaries -/
@@ -449,6 +452,7 @@ def samplerShots (ms : PV) : Res Int :=
   | .none => throw .runtime
   | .int i => if i = 0 then throw .runtime else if i < 1 then throw .runtime else pure i
   | .str _ => throw .precondition
+  | .bool _ => throw .precondition
 
 inductive Method where
   | probs | sample_count | samples
